@@ -419,7 +419,28 @@ def bool_switch(body, bi):
     bs.defn = None
     bs.def_is_term = False
     bs.def_block = None
-    d = defs_of(body).get(l, [])
+    alld = defs_of(body)
+    d = alld.get(l, [])
+    # follow `let ok = a == b; if ok` / `if !ok`: a single copy or negation
+    # of another single-definition local is looked through (targets swapped
+    # for a negation), so rules see the comparison itself
+    depth = 0
+    while len(d) == 1 and not d[0][2] and depth < 6:
+        st = d[0][1]
+        src = None
+        if st.get("k") == "use":
+            src = op_place(st["ops"][0])
+        elif st.get("k") == "un" and st.get("op") == "Not":
+            src = op_place(st["ops"][0])
+        if src is None or "." in src:
+            break
+        nd = alld.get(place_local(src), [])
+        if len(nd) != 1:
+            break
+        if st.get("k") == "un":
+            bs.true_t, bs.false_t = bs.false_t, bs.true_t
+        d = nd
+        depth += 1
     if d:
         bs.def_block, bs.defn, bs.def_is_term = d[-1] if len(d) == 1 else d[0]
     return bs
